@@ -133,7 +133,15 @@ def g1(e: Engine, rep: Report, rule: str):
                                   loc=f.loc(n), reason='inside DataReader')
                 if n.func.attr == 'raw_recv':
                     rep.evaluations += 1
-                    rep.check(f.qname in RAW_RECV_CALLERS, rule, f.qname,
+                    # (a private helper used by the enumerated callers only
+                    # is part of them)
+                    allowed = set(RAW_RECV_CALLERS)
+                    for cq0 in (IOC, READER):
+                        own = {q.rpartition('.')[2] for q in RAW_RECV_CALLERS
+                               if q.startswith(cq0 + '.')}
+                        allowed |= {cq0 + '.' + nm for nm in
+                                    common.owner_closure(e, cq0, own)}
+                    rep.check(f.qname in allowed, rule, f.qname,
                               'caller of raw_recv',
                               'raw_recv is called from %s: bytes can be '
                               'consumed without going through recv_buffer '
